@@ -45,7 +45,19 @@ func literalField(v ssa.Value, budget int) (ssa.Value, bool) {
 	if !ok {
 		return nil, false
 	}
-	al, ok := deepStripN(fa.X, budget-1).(*ssa.Alloc)
+	base := deepStripN(fa.X, budget-1)
+	if cv, isCall := base.(*ssa.Call); isCall && theProg != nil {
+		// built by a constructor (d := w.newDelivery(ctx, publish, session)): the literal's field with this call's arguments bound
+		if o := (&Ctx{P: theProg}).builtObject(cv); o != nil && o.alloc.Referrers() != nil {
+			if _, isStruct := derefT(o.alloc.Type()).Underlying().(*types.Struct); isStruct && !fieldWrittenElsewhere(fa, o.alloc) {
+				if fv := o.field(fieldNameOf(fa.X.Type(), fa.Field)); fv != nil {
+					return fv, true
+				}
+			}
+		}
+		return nil, false
+	}
+	al, ok := base.(*ssa.Alloc)
 	if !ok || al.Referrers() == nil {
 		return nil, false
 	}
